@@ -356,7 +356,9 @@ def native_clauses(n, e, s=None, orc=None):
         if degenerate.any() or odd or len(T) == 0:
             bad["closed"] = f"{int(degenerate.sum())} degenerate triangles, {len(odd)} unmatched directed edges of {len(edges)}, {len(T)} triangles"
         # the mesh object handed to users (to_trimesh) is itself closed: watertight, sphere topology, same volume
-        if "closed" not in bad and hasattr(w, "to_trimesh"):
+        # (trimesh welds vertices closer than its ABSOLUTE tolerance 1e-8: the clause is only meaningful when distinct vertices are much farther apart than that)
+        sep_ok = len(P) < 2 or float(np.min(np.linalg.norm(P[:, None] - P[None], axis=2) + np.eye(len(P)) * 1e9)) > 1e-5
+        if "closed" not in bad and hasattr(w, "to_trimesh") and sep_ok:
             ev += 1
             try:
                 tm = w.to_trimesh()
